@@ -90,6 +90,14 @@ def edit(m, c, bad):
         m.S.z = 0 if bad else 2
 
 
+def _try(fn, *a):
+    try:
+        fn(*a)
+        return "ok"
+    except Exception as e:      # noqa
+        return "raised " + type(e).__name__
+
+
 def _val(m):
     try:
         return m.S.guarded()
@@ -110,18 +118,23 @@ def run(c):
     pre(live, c, first_bad)
     v0 = _val(live)
     preds0 = sorted(repr(n) for n in live.S.guarded.preds())
-    edit(live, c, not first_bad)
+    live_edit = _try(edit, live, c, not first_bad)
     v1 = _val(live)
     fresh = build("F", c)
     pre(fresh, c, first_bad)
-    edit(fresh, c, not first_bad)
+    fresh_edit = _try(edit, fresh, c, not first_bad)
     v2 = _val(fresh)
     # the fixture must do what it says: the first evaluation is the handled (resp. successful) one and the edit
     # changes the answer of the fresh model
     handled_first = (v0 == -1 or (c["mode"] == "selfread" and v0 == -1))
     fixture_ok = (handled_first if first_bad else v0 == 2) and v2 != v0
     vio = []
-    if fixture_ok and v1 != v2:
+    if live_edit != fresh_edit:
+        # the same valid edit raises on the model that evaluated before and not on the one that did not
+        vio.append({"kind": "accept", "signature": "an edit is accepted or rejected depending on earlier evaluations",
+                    "detail": {"case": {k: c[k] for k in ("source", "mode", "uncached", "depth")},
+                               "live": live_edit, "fresh": fresh_edit}})
+    elif fixture_ok and v1 != v2:
         vio.append({"kind": "stale", "signature": signature(c),
                     "detail": {"case": {k: c[k] for k in ("source", "mode", "uncached", "depth")},
                                "before_edit": v0, "live": v1, "fresh": v2, "preds_of_guarded_before_edit": preds0}})
